@@ -12,6 +12,8 @@
 (* Abstract state                                                          *)
 (*   exists   the stream (and so the partition) exists                     *)
 (*   isr      in-sync replica set            leader   current leader       *)
+(*   pisr     the PERSISTED copy of the in-sync set (protobuf Partition.Isr,*)
+(*            what snapshots and pause/resume rebuild the partition from)  *)
 (*   lepoch   leader epoch                   pepoch   partition epoch      *)
 (*   e0       leader epoch at creation (constant of a behaviour)           *)
 (*   fo       the partition's entry in metadataAPI.partitionFailovers:     *)
@@ -51,6 +53,8 @@
 (*               when the Raft entry is proposed (as shipped; defective    *)
 (*               when the request is overtaken by an election, see         *)
 (*               DoISRApply); TRUE = today's code                          *)
+(*   KeepOnFail = TRUE   the status survives a FAILED election attempt     *)
+(*               (timer stopped, so for ever); FALSE = today's code        *)
 (* They exist to generate the counterexamples that are replayed on the     *)
 (* real code.                                                              *)
 (***************************************************************************)
@@ -60,11 +64,11 @@ CONSTANTS Replicas,     \* replica ids of the partition (strings)
           Outsider,     \* an id that is not a replica (reports may come from anywhere)
           Dense,        \* TRUE: the next Raft index is epoch + 1 (bounded model);
                         \* FALSE: any larger index (recorded traces: the Raft log is shared)
-          KeepStatus, CountAll, RecheckAtApply, RecheckISR
+          KeepStatus, CountAll, RecheckAtApply, RecheckISR, KeepOnFail
 
-VARIABLES exists, isr, leader, lepoch, pepoch, e0, fo, armed, good, obs, pend, taint
-pvars == <<exists, isr, leader, lepoch, pepoch, e0>>   \* replicated partition state
-vars == <<exists, isr, leader, lepoch, pepoch, e0, fo, armed, good, obs, pend, taint>>
+VARIABLES exists, isr, pisr, leader, lepoch, pepoch, e0, fo, armed, good, obs, pend, taint
+pvars == <<exists, isr, pisr, leader, lepoch, pepoch, e0>>   \* replicated partition state
+vars == <<exists, isr, pisr, leader, lepoch, pepoch, e0, fo, armed, good, obs, pend, taint>>
 
 Reporters == Replicas \cup {Outsider}
 NoFo == [on |-> FALSE, wit |-> {}]
@@ -79,7 +83,7 @@ Stale(l, e) == ~exists \/ l # leader \/ e # lepoch
 
 Refuse(a, err) ==
   /\ obs' = [a |-> a, err |-> err]
-  /\ UNCHANGED <<exists, isr, leader, lepoch, pepoch, e0, fo, armed, good, pend, taint>>
+  /\ UNCHANGED <<exists, isr, pisr, leader, lepoch, pepoch, e0, fo, armed, good, pend, taint>>
 
 RefuseStale(a) == IF ~exists THEN Refuse(a, "nopart") ELSE Refuse(a, "stale")
 
@@ -107,7 +111,7 @@ TaintAfterApply(l, e) == taint \/ (Stale(l, e) /\ obs'.err # "stale")
 \* second half of metadataAPI.ReportLeader: failoverStatus.report(w) -> (quorum
 \* reached) electNewPartitionLeader -> Raft CHANGE_LEADER -> SetLeader.  Nothing in
 \* here looks at the (leader, epoch) pair of the request again.
-ReportEffect(w, l, e, a) ==
+ReportEffect(w, l, e, a, ok) ==
     LET wit1    == (IF fo.on THEN fo.wit ELSE {}) \cup {w}
         counted == IF CountAll THEN wit1 ELSE wit1 \cap Followers
         failed  == Cardinality(counted) > Quorum
@@ -126,20 +130,36 @@ ReportEffect(w, l, e, a) ==
          /\ UNCHANGED pvars
          /\ armed' = ArmedAfterEffect    \* FALSE
          /\ good' = GoodAfterReport(w, l, e)
+       ELSE IF ~ok THEN
+         \* timer stopped, the CHANGE_LEADER entry cannot be replicated (the
+         \* request's deadline is over, Raft unavailable): election attempt fails
+         /\ fo' = IF KeepStatus \/ KeepOnFail THEN [on |-> TRUE, wit |-> wit1] ELSE NoFo
+         /\ obs' = [a |-> a, err |-> "raft"]
+         /\ UNCHANGED pvars
+         /\ armed' = ArmedAfterEffect    \* FALSE
+         /\ good' = GoodAfterReport(w, l, e)
        ELSE
          \* timer stopped, new leader = least loaded in-sync follower (any)
          /\ \E n \in Followers : leader' = n
          /\ NewIdx(pepoch', pepoch) /\ lepoch' = pepoch'
-         /\ UNCHANGED <<exists, isr, e0>>
+         /\ UNCHANGED <<exists, isr, pisr, e0>>
          /\ fo' = after
          /\ obs' = [a |-> a, err |-> ""]
          /\ armed' = ArmedAfterEffect    \* FALSE
          /\ good' = GoodAfterReport(w, l, e)
 
-\* metadataAPI.ReportLeader(replica w, leader l, epoch e), one request at a time
-DoReportLeader(w, l, e) ==
+\* metadataAPI.ReportLeader(replica w, leader l, epoch e), one request at a time.
+\* ok = FALSE: the controller cannot replicate a Raft entry for this request
+\* (fault: the request's deadline is over); it only matters if an election is due.
+DoReportLeader(w, l, e, ok) ==
   IF Stale(l, e) THEN RefuseStale("Report")
-  ELSE ReportEffect(w, l, e, "Report") /\ UNCHANGED <<pend, taint>>
+  ELSE ReportEffect(w, l, e, "Report", ok) /\ UNCHANGED <<pend, taint>>
+
+\* this report would start an election
+WouldElect(w) ==
+  LET wit1 == (IF fo.on THEN fo.wit ELSE {}) \cup {w}
+      counted == IF CountAll THEN wit1 ELSE wit1 \cap Followers
+  IN Cardinality(counted) > Quorum /\ Cardinality(isr) > 1 /\ Followers # {}
 
 \* Concurrent requests: the first half of ReportLeader (partition lookup and the
 \* (leader, epoch) check) ...
@@ -147,7 +167,7 @@ DoReportCheck(w, l, e) ==
   IF Stale(l, e) THEN RefuseStale("ReportCheck")
   ELSE /\ pend' = Append(pend, [k |-> "report", w |-> w, l |-> l, e |-> e])
        /\ obs' = [a |-> "ReportCheck", err |-> ""]
-       /\ UNCHANGED <<exists, isr, leader, lepoch, pepoch, e0, fo, armed, good, taint>>
+       /\ UNCHANGED <<exists, isr, pisr, leader, lepoch, pepoch, e0, fo, armed, good, taint>>
 
 \* ... and the second half, arbitrarily later, whatever happened in between:
 \* under metadataAPI.mu the pair is checked AGAIN (fix "a leader report that was
@@ -161,10 +181,10 @@ DoReportApply(i) ==
   /\ LET r == pend[i] IN
      IF RecheckAtApply /\ Stale(r.l, r.e) THEN
        /\ obs' = [a |-> "ReportApply", err |-> "stale"]
-       /\ UNCHANGED <<exists, isr, leader, lepoch, pepoch, e0, fo, armed, good>>
+       /\ UNCHANGED <<exists, isr, pisr, leader, lepoch, pepoch, e0, fo, armed, good>>
        /\ taint' = TaintAfterApply(r.l, r.e)     \* unchanged
      ELSE
-       /\ ReportEffect(r.w, r.l, r.e, "ReportApply")
+       /\ ReportEffect(r.w, r.l, r.e, "ReportApply", TRUE)
        /\ taint' = TaintAfterApply(r.l, r.e)
   /\ pend' = SubSeq(pend, 1, i - 1) \o SubSeq(pend, i + 1, Len(pend))
 
@@ -178,10 +198,11 @@ DoExpire ==
 
 \* metadataAPI.ShrinkISR(replica r, leader l, epoch e) -> Raft SHRINK_ISR -> RemoveFromISR
 \* (domain: r is a replica and not the leader named in the request)
-DoShrinkISR(r, l, e) ==
+DoShrinkISR(r, l, e, ok) ==
   IF Stale(l, e) THEN RefuseStale("Shrink")
+  ELSE IF ~ok THEN Refuse("Shrink", "raft")
   ELSE
-    /\ isr' = isr \ {r}
+    /\ isr' = isr \ {r} /\ pisr' = isr'
     /\ NewIdx(pepoch', pepoch)
     /\ UNCHANGED <<exists, leader, lepoch, e0, fo, armed, pend, taint>>
     /\ good' = GoodAfterISR
@@ -189,10 +210,11 @@ DoShrinkISR(r, l, e) ==
 
 \* metadataAPI.ExpandISR(replica r, leader l, epoch e) -> Raft EXPAND_ISR -> AddToISR
 \* (domain: r is a replica)
-DoExpandISR(r, l, e) ==
+DoExpandISR(r, l, e, ok) ==
   IF Stale(l, e) THEN RefuseStale("Expand")
+  ELSE IF ~ok THEN Refuse("Expand", "raft")
   ELSE
-    /\ isr' = isr \cup {r}
+    /\ isr' = isr \cup {r} /\ pisr' = isr'
     /\ NewIdx(pepoch', pepoch)
     /\ UNCHANGED <<exists, leader, lepoch, e0, fo, armed, pend, taint>>
     /\ good' = GoodAfterISR
@@ -204,7 +226,7 @@ DoISRCheck(k, r, l, e) ==
   IF Stale(l, e) THEN RefuseStale("ISRCheck")
   ELSE /\ pend' = Append(pend, [k |-> k, w |-> r, l |-> l, e |-> e])
        /\ obs' = [a |-> "ISRCheck", err |-> ""]
-       /\ UNCHANGED <<exists, isr, leader, lepoch, pepoch, e0, fo, armed, good, taint>>
+       /\ UNCHANGED <<exists, isr, pisr, leader, lepoch, pepoch, e0, fo, armed, good, taint>>
 
 \* ... and the second half, arbitrarily later: the Raft proposal, whose
 \* precondition compares the pair AGAIN, atomically with the other metadata
@@ -217,10 +239,11 @@ DoISRApply(i) ==
   /\ LET r == pend[i] IN
      IF RecheckISR /\ Stale(r.l, r.e) THEN
        /\ obs' = [a |-> "ISRApply", err |-> "stale"]
-       /\ UNCHANGED <<exists, isr, leader, lepoch, pepoch, e0, fo, armed, good>>
+       /\ UNCHANGED <<exists, isr, pisr, leader, lepoch, pepoch, e0, fo, armed, good>>
        /\ taint' = TaintAfterApply(r.l, r.e)     \* unchanged
      ELSE
        /\ isr' = IF r.k = "shrink" THEN isr \ {r.w} ELSE isr \cup {r.w}
+       /\ pisr' = isr'
        /\ NewIdx(pepoch', pepoch)
        /\ UNCHANGED <<exists, leader, lepoch, e0, fo, armed>>
        /\ good' = GoodAfterISR
@@ -235,6 +258,19 @@ DoLoseControllership ==
   /\ obs' = [a |-> "Lose", err |-> ""]
   /\ UNCHANGED <<pvars, pend, taint>>
 
+\* The partition object is rebuilt from its persisted form (pause + resume of the
+\* stream: PAUSE_STREAM / RESUME_STREAM -> replacePartition; a snapshot restore does
+\* the same): the in-sync set is what was persisted; the failover status of the
+\* old object is out of reach (the map is keyed by the object).
+\* (domain: no request is inside ReportLeader / ShrinkISR / ExpandISR)
+DoRebuild ==
+  IF ~exists THEN Refuse("Rebuild", "nostream")
+  ELSE
+    /\ isr' = pisr /\ pisr' = pisr
+    /\ fo' = NoFo /\ armed' = FALSE /\ good' = good
+    /\ obs' = [a |-> "Rebuild", err |-> ""]
+    /\ UNCHANGED <<exists, leader, lepoch, pepoch, e0, pend, taint>>
+
 \* DeleteStream -> Raft DELETE_STREAM -> removeStream
 \* (domain: no report is inside ReportLeader)
 DoRemoveStream ==
@@ -243,7 +279,7 @@ DoRemoveStream ==
     /\ exists' = FALSE
     /\ fo' = NoFo /\ armed' = FALSE /\ good' = {}
     /\ obs' = [a |-> "Remove", err |-> ""]
-    /\ UNCHANGED <<isr, leader, lepoch, pepoch, e0, pend, taint>>
+    /\ UNCHANGED <<isr, pisr, leader, lepoch, pepoch, e0, pend, taint>>
 
 -----------------------------------------------------------------------------
 (* What property C07 demands *)
@@ -318,14 +354,18 @@ P_ExpandISR(r, l, e) ==
      ELSE /\ leader' = leader /\ lepoch' = lepoch /\ exists' = exists
           /\ isr \subseteq isr' /\ isr' \ isr \subseteq {r}
 
-\* timer expiry, controller change: the replicated partition state is untouched
+\* timer expiry, controller change, rebuild of the partition object from its
+\* persisted form: the replicated partition state is untouched
 P_Quiet == NoChange
+P_Rebuild == NoChange
 \* a removed stream: nothing is demanded of what is left of it; a refused removal changes nothing
 P_RemoveStream == exists' => NoChange
 
 -----------------------------------------------------------------------------
 (* Mechanism invariants (implementation level) *)
 
+\* the persisted copy of the in-sync set is the in-sync set
+PersistedISR == exists => pisr = isr
 TypeOK == /\ exists \in BOOLEAN /\ armed \in BOOLEAN
           /\ fo.on \in BOOLEAN /\ fo.wit \subseteq Reporters
           /\ lepoch <= pepoch /\ e0 <= lepoch
